@@ -110,6 +110,7 @@ func verifyFunction(w *World, fn *ssa.Function) (rep *FnReport) {
 	}
 	fx.assumeHeld(st)
 	fx.args = args
+	e.rep = e.replaySetup(fx, st, w.mcfg)
 	// package-level invariants over immutable globals
 	if fn.Name() != "init" || fn.Parent() != nil {
 		pkgPath := ""
@@ -182,7 +183,9 @@ func verifyFunction(w *World, fn *ssa.Function) (rep *FnReport) {
 					if len(fx.rets) > 1 {
 						name += fmt.Sprintf("@return%d", fx.retOrd[ri])
 					}
-					e.addObl("contract", name, fx.partTags(en, nt), rst, nt.term, fx.retPos[ri])
+					if o := e.addObl("contract", name, fx.partTags(en, nt), rst, nt.term, fx.retPos[ri]); o != nil {
+						o.Clause = en
+					}
 				}
 			}
 		}
